@@ -69,7 +69,7 @@ def run(ctx):
     gen = parsecheck.gen_lex_cases(ctx, True, 401, 22, "gen")
     ctx.seed = seed
     step = 40 if ctx.quick else 6
-    battery = [r for r in core.read_ndjson(corpus) if "text" in r] + [r for i, r in enumerate(gen) if i % step == 0]
+    battery = [r for r in core.iter_ndjson(corpus) if "text" in r] + [r for i, r in enumerate(gen) if i % step == 0]
     bp = ctx.path("battery.ndjson")
     core.write_ndjson(bp, battery)
     r = ctx.tlc("Depth", c05.CFG % ("additive", "INVARIANT Bounded\nINVARIANT Emit"), tag="depth-additive", workers=4)
@@ -96,7 +96,7 @@ def run(ctx):
         for tag, path in (("battery", bp), ("depth", dp)):
             outp = ctx.path("digest-%s-%s.ndjson" % (cell, tag))
             ctx.harness(h, ["digest", "--in", path, "--out", outp])
-            for rec in core.read_ndjson(outp):
+            for rec in core.iter_ndjson(outp):
                 k = "depth" if tag == "depth" else "invariant"
                 add(k, "%s/edit" % rec["id"], cell, rec["d_edit"])
                 add(k, "%s/parse" % rec["id"], cell, rec["d_parse"])
@@ -104,7 +104,7 @@ def run(ctx):
                 add("depth" if tag == "depth" else "order", "%s/toml-order" % rec["id"], cell, rec["d_toml_order"])
         outp = ctx.path("build-%s.ev" % cell)
         ctx.harness(h, ["build-events", "--in", sp, "--out", outp])
-        for rec in core.read_ndjson(outp):
+        for rec in core.iter_ndjson(outp):
             for rt in rec["r"]:
                 kind = "order" if rt["route"].startswith("toml::") else "invariant"
                 add(kind, "%s/%s" % (rec["id"], rt["route"]), cell, apicheck_hash(rt))
